@@ -77,6 +77,8 @@ def native_env(spec, bound):
   for k, v in spec.module_globals.items():
     if isinstance(v, (Sort, C.SpecFn)):
       env[k] = v
+      if isinstance(v, Sort):
+        env.setdefault(v.name, v)
   from .values import UFn
   for k, v in spec.module_globals.items():
     if isinstance(v, UFn) and v.native is not None:
